@@ -211,6 +211,10 @@ def check_hmac_mac(ctx, P):
 
 
 def check_hmac_keys(ctx, P):
+    # the construction itself, against RFC 2104 with an uninterpreted digest (independent of how the code is organised);
+    # the structural rules below decide the same clauses for every key length and stay as cross-checks
+    from . import objshape
+    ctx.guard("shape-eval", "Hmac", lambda: objshape.check_hmac(ctx, P))
     ek = P.fn("hmac::expand_key")
     # hash path iff key.len() > bs
     hres = ek.calls_to(D_RESULT)
